@@ -788,7 +788,11 @@ func HashMapOfValueDelete
 // ---- insertion (C17) ------------------------------------------------------------------
 // keys equal under == occupy one entry; binds(t, k, v): some live slot holds exactly (k, v)
 axiom eqSym: forall vm *Thread, a value.Value, b value.Value :: eqv(vm, a, b) ==> eqv(vm, b, a)
+axiom eqTrans: forall vm *Thread, a value.Value, b value.Value, c value.Value :: eqv(vm, a, b) && eqv(vm, b, c) ==> eqv(vm, a, c)
 spec fn nodupM(vm *Thread, t []value.PairOfValue) bool = forall i int, j int :: 0 <= i && i < len(t) && 0 <= j && j < len(t) && i != j && mLive(t, i) && mLive(t, j) ==> !eqv(vm, mKey(t, i), mKey(t, j))
+// probeOK: the probe invariant as a declared predicate (so that lemmas concluding it have a trigger)
+spec rec fn probeOK(vm *Thread, t []value.PairOfValue) bool = wfProbeM(vm, t)
+spec rec fn nodupOK(vm *Thread, t []value.PairOfValue) bool = nodupM(vm, t)
 // hasKey: mHas as a declared function (definitional axiom with a trigger), so that statements
 // quantified over keys instantiate by matching
 spec rec fn hasKey(vm *Thread, t []value.PairOfValue, k value.Value) bool = exists j int :: 0 <= j && j < len(t) && mLive(t, j) && eqv(vm, mKey(t, j), k)
@@ -802,6 +806,27 @@ lemma mCountFull(t []value.PairOfValue, k int, j int)
   uses mCountRange
   induction k from 0
 
+// writing a live entry into slot i keeps the probe invariant when every slot between the
+// entry's home and i was already occupied (two-state: t before the write, u after it)
+lemma probeStore(vm *Thread, t []value.PairOfValue, u []value.PairOfValue, i int)
+  props C17
+  requires len(t) == len(u) && 0 <= i && i < len(u)
+  requires forall j int :: 0 <= j && j < len(u) && j != i ==> old(mKey(t, j)) == mKey(u, j) && old(mVal(t, j)) == mVal(u, j)
+  requires old(probeOK(vm, t))
+  requires mLive(u, i)
+  requires forall p int :: 0 <= p && p < len(u) && between(home(vm, mKey(u, i), len(u)), p, i) ==> !old(mEmpty(t, p))
+  ensures probeOK(vm, u)
+
+// writing a live entry into slot i keeps keys unique when no other live key equals the new one
+lemma nodupStore(vm *Thread, t []value.PairOfValue, u []value.PairOfValue, i int)
+  props C17
+  requires len(t) == len(u) && 0 <= i && i < len(u)
+  requires forall j int :: 0 <= j && j < len(u) && j != i ==> old(mKey(t, j)) == mKey(u, j) && old(mVal(t, j)) == mVal(u, j)
+  requires old(nodupOK(vm, t))
+  requires mLive(u, i)
+  requires forall j int :: 0 <= j && j < len(u) && j != i && old(mLive(t, j)) ==> !eqv(vm, old(mKey(t, j)), mKey(u, i)) && !eqv(vm, mKey(u, i), old(mKey(t, j)))
+  ensures nodupOK(vm, u)
+
 // Resizing rehashes every live entry into a fresh table of the requested capacity: the same
 // bindings, no tombstones.  ASSUMED here (trusted), so that insertion can be proved against
 // it; listed in the evidence as an assumption until the rehash loop itself is proved.
@@ -813,6 +838,8 @@ func HashMapOfValueSetCapacity
   ensures sameKeys: forall k value.Value :: hasKey(vm, hashMap.Table, k) <==> old(hasKey(vm, hashMap.Table, k))
   ensures ok: ret.flag == value.UNDEFINED_FLAG ==> len(hashMap.Table) == capacity && (capacity != old(len(hashMap.Table)) ==> hashMap.OccupiedSlots == hashMap.Elements)
   ensures err: ret.flag != value.UNDEFINED_FLAG ==> hashMap.Table == old(hashMap.Table) && hashMap.OccupiedSlots == old(hashMap.OccupiedSlots)
+  // an error can only come from hashing an existing key
+  ensures noerr: old(hashMap.Elements) == 0 ==> ret.flag == value.UNDEFINED_FLAG
 
 // map[key] = val: afterwards the map binds key to val; a binding of any other key is there
 // exactly when it was there before; nothing else equal to key remains; the number of entries
@@ -822,22 +849,26 @@ func HashMapOfValueSetCapacity
 func HashMapOfValueSetWithMaxLoad
   props C17
   nosafety
-  uses mCountRange, mCountUpdate, mCountFull
+  uses mCountRange, mCountUpdate, mCountFull, probeStore, nodupStore
   requires wfMap(vm, hashMap) && nodupM(vm, hashMap.Table) && !hsEmpty(key)
   requires 0 < maxLoad && maxLoad <= 1
-  // whatever the resizing did, the lookup starts from a well-formed table with the same bindings
-  cut before HashMapOfValueIndex#1: wfMap(vm, hashMap) && nodupM(vm, hashMap.Table) && hashMap.Elements == old(hashMap.Elements) && !hsEmpty(key)
-  cut before HashMapOfValueIndex#1: hasKey(vm, hashMap.Table, key) <==> old(hasKey(vm, hashMap.Table, key))
-  ensures try wfP: ret.flag == value.UNDEFINED_FLAG ==> wfProbeM(vm, hashMap.Table)
-  ensures hdr: ret.flag == value.UNDEFINED_FLAG ==> len(hashMap.Table) == cap(hashMap.Table)
-  ensures wfL: ret.flag == value.UNDEFINED_FLAG ==> hashMap.Elements == mLiveCount(hashMap.Table, len(hashMap.Table))
-  ensures wfO: ret.flag == value.UNDEFINED_FLAG ==> hashMap.OccupiedSlots == mOccCount(hashMap.Table, len(hashMap.Table))
-  ensures try nodup: ret.flag == value.UNDEFINED_FLAG ==> nodupM(vm, hashMap.Table)
-  ensures bound: ret.flag == value.UNDEFINED_FLAG ==> binds(hashMap.Table, key, val)
+  // whatever the resizing did, the lookup starts from a well-formed table with the same keys.
+  // Each later clause names the cut assertions (cut_<label>), lemmas and axioms it is proved from.
+  cut before HashMapOfValueIndex#1: hdr using nothing: hashMap != nil && len(hashMap.Table) == cap(hashMap.Table) && len(hashMap.Table) >= 1 && !hsEmpty(key)
+  cut before HashMapOfValueIndex#1: probe using nothing: wfProbeM(vm, hashMap.Table) && probeOK(vm, hashMap.Table)
+  cut before HashMapOfValueIndex#1: counts using nothing: hashMap.Elements == mLiveCount(hashMap.Table, len(hashMap.Table)) && hashMap.OccupiedSlots == mOccCount(hashMap.Table, len(hashMap.Table)) && hashMap.Elements == old(hashMap.Elements)
+  cut before HashMapOfValueIndex#1: nodup using nothing: nodupM(vm, hashMap.Table) && nodupOK(vm, hashMap.Table)
+  cut before HashMapOfValueIndex#1: keys using nothing: hasKey(vm, hashMap.Table, key) <==> old(hasKey(vm, hashMap.Table, key))
+  ensures try wfP using probeStore, eqHash, cut_hdr, cut_probe: ret.flag == value.UNDEFINED_FLAG ==> probeOK(vm, hashMap.Table)
+  ensures hdr using cut_hdr: ret.flag == value.UNDEFINED_FLAG ==> len(hashMap.Table) == cap(hashMap.Table)
+  ensures wfL using mCountRange, mCountUpdate, cut_hdr, cut_counts: ret.flag == value.UNDEFINED_FLAG ==> hashMap.Elements == mLiveCount(hashMap.Table, len(hashMap.Table))
+  ensures wfO using mCountRange, mCountUpdate, cut_hdr, cut_counts: ret.flag == value.UNDEFINED_FLAG ==> hashMap.OccupiedSlots == mOccCount(hashMap.Table, len(hashMap.Table))
+  ensures nodup using nodupStore, eqSym, eqTrans, cut_hdr, cut_nodup: ret.flag == value.UNDEFINED_FLAG ==> nodupOK(vm, hashMap.Table)
+  ensures bound using cut_hdr: ret.flag == value.UNDEFINED_FLAG ==> binds(hashMap.Table, key, val)
   ensures try single: ret.flag == value.UNDEFINED_FLAG ==> forall k value.Value, v value.Value :: eqv(vm, k, key) && binds(hashMap.Table, k, v) ==> k == key && v == val
   ensures try othersKept: ret.flag == value.UNDEFINED_FLAG ==> forall k value.Value, v value.Value :: !eqv(vm, k, key) && old(binds(hashMap.Table, k, v)) ==> binds(hashMap.Table, k, v)
   ensures try othersNew: ret.flag == value.UNDEFINED_FLAG ==> forall k value.Value, v value.Value :: !eqv(vm, k, key) && binds(hashMap.Table, k, v) ==> old(binds(hashMap.Table, k, v))
-  ensures count: ret.flag == value.UNDEFINED_FLAG ==> hashMap.Elements == old(hashMap.Elements) + ite(old(hasKey(vm, hashMap.Table, key)), 0, 1)
+  ensures count using mCountRange, mCountUpdate, cut_hdr, cut_counts, cut_keys: ret.flag == value.UNDEFINED_FLAG ==> hashMap.Elements == old(hashMap.Elements) + ite(old(hasKey(vm, hashMap.Table, key)), 0, 1)
 
 func HashMapOfValueSet
   props C17
